@@ -130,3 +130,69 @@ def count8(x) -> dict:
 
 def comp8(c: dict) -> list:
     return [{"sym": str(k), **count8(v)} for k, v in sorted(c.items(), key=lambda kv: str(kv[0]))]
+
+
+def poison(pp, text: str) -> None:
+    """Things a caller may do with a ProForma TEXT and with what the library returns for it.  A string is immutable, so
+    none of this may change what any later call on the same text returns; if the library keeps parsed objects per text
+    (a cache) and hands them out, the edits below reach it.  Every step is allowed to raise."""
+    from peptacular.proforma.proforma_dataclasses import Mod
+
+    def edit(a):
+        if isinstance(a, pp.ProFormaAnnotation):
+            a.add_nterm_mods([Mod("POISON", 1)], append=True)
+            if len(a.sequence) > 0:
+                a.add_internal_mod(0, [Mod("POISON", 1)], append=True)
+            a.add_labile_mods([Mod("POISON", 1)], append=True)
+            a.charge = 7
+    steps = [
+        lambda: edit(pp.parse(text)),
+        lambda: pp.add_mods(text, {"nterm": [Mod("POISON", 1)], 0: [Mod("POISON", 1)]}),
+        lambda: pp.comp_mass(text, ion_type="b", charge=1),
+        lambda: [edit(x) for x in pp.apply_variable_mods(text, {}, 0, return_type="annotation")],
+        lambda: [edit(f.parent_sequence) for f in pp.fragment(text, "b", 1)[:1]],
+        lambda: edit(pp.sequence.sequence_funcs.sequence_to_annotation(text)),
+    ]
+    for s in steps:
+        try:
+            s()
+        except Exception:      # noqa
+            pass
+
+
+def maybe_poison(pp, text: str, tid: str, every: int = 3) -> None:
+    """poison() for a deterministic third of the events (the choice depends on the event id only)."""
+    import zlib
+    if zlib.crc32(tid.encode()) % every == 0:
+        poison(pp, text)
+
+
+def poison_values(pp, A: dict, tid: str, every: int = 3) -> None:
+    """For a deterministic third of the events: ask for the composition of every modification value of the abstract
+    annotation A and edit the dictionaries that come back (clear them, relabel them).  Returned dictionaries belong to
+    the caller; doing this must not change any later answer."""
+    import zlib
+    if zlib.crc32(("v" + tid).encode()) % every:
+        return
+    vals = []
+    for sl in ("labile", "unknown", "nterm", "cterm"):
+        vals += [m["v"] for m in A.get(sl, [])]
+    for e in A.get("internal", []):
+        vals += [m["v"] for m in e["mods"]]
+    for iv in A.get("intervals", []):
+        vals += [m["v"] for m in iv["mods"]]
+    for v in vals:
+        if not v.startswith("s:"):
+            continue
+        for alt in v[2:].split("|"):
+            alt = alt.split("#")[0]
+            try:
+                if alt.lower().startswith("formula:"):
+                    pp.apply_isotope_mods_to_composition(alt.split(":", 1)[1], ["13C", "15N", "18O"])
+                d = pp.mod_comp(alt)
+                if isinstance(d, dict):
+                    for k in list(d):
+                        d[k] = d[k] + 7
+                    d["Xx"] = 3
+            except Exception:      # noqa
+                pass
